@@ -9,6 +9,6 @@ git -C "$WT" checkout -q -- .
 git -C "$WT" apply "$S/patch.diff" 2> "$S/confirm.apply.log" || { echo "$WT seed $N: PATCH DOES NOT APPLY"; exit 1; }
 ( cd "$WT" && go build ./... && go test -vet=off -count=1 ./... && cd tests && go test -vet=off -count=1 ./... ) > "$S/confirm.suite.log" 2>&1; SU=$?
 ( cd "$WT" && timeout 600 bash "$S/demo/run.sh" ) > "$S/confirm.patched.log" 2>&1; P=$?
-git -C "$WT" checkout -q -- . ; git -C "$WT" clean -fdq -e seed -e TASK.md -e PROPERTY.json >/dev/null 2>&1
+git -C "$WT" checkout -q -- . ; git -C "$WT" clean -fdq -e seed -e TASK.md -e PROPERTY.json -e BYPRODUCTS.md >/dev/null 2>&1
 OK=no; [ $C -eq 0 ] && [ $SU -eq 0 ] && [ $P -ne 0 ] && OK=yes
 echo "$WT seed $N: demo-clean=$C suite-with-patch=$SU demo-patched=$P confirmed=$OK"
